@@ -286,8 +286,32 @@ fn c02_judge(c: &ServeCase, o: &ServeObs, sink: &mut Sink) -> (Verdict, Option<u
     let (start, want_len, kind) = match r.status {
         200 => (0u64, l, "200"),
         206 => {
-            if r.get("content-type").is_some_and(|ct| ct.starts_with(b"multipart/")) {
-                return (Verdict::DontCare("multipart (C06)".into()), None);
+            if let Some(ct) = r.get("content-type").filter(|ct| ct.starts_with(b"multipart/")) {
+                // structure is C06's subject; here only: the bytes of every part are the entity
+                // bytes that part's own Content-Range names
+                let b = match multipart::boundary_of(ct) {
+                    Some(b) => b,
+                    None => return (Verdict::DontCare("multipart without readable boundary (C06)".into()), None),
+                };
+                let p = match multipart::parse(&d.data, &b, d.terminal == Terminal::End) {
+                    Ok(p) => p,
+                    Err(_) => return (Verdict::DontCare("unreadable multipart body (C06)".into()), None),
+                };
+                for part in &p.parts {
+                    if part.total != l || part.last >= l {
+                        return (Verdict::viol("content-range-bounds|part", format!("part Content-Range {}-{}/{} for entity length {}", part.first, part.last, part.total, l)), None);
+                    }
+                    let data = &d.data[part.data_off..part.data_off + part.data_present];
+                    if let Some(i) = check_bytes(data, part.first) {
+                        return (
+                            Verdict::viol("wrong-byte|multipart-part", format!("part labelled {}-{}: byte {} is not entity byte {} (get_range calls {:?})", part.first, part.last, i, part.first + i as u64, o.rec.get_range)),
+                            None,
+                        );
+                    }
+                    sink.add("bytes_verified", data.len() as u64);
+                }
+                sink.count("multipart_parts_verified");
+                return (Verdict::Ok, Some(hash64(c)));
             }
             match r.get("content-range").and_then(parse_content_range) {
                 Some(ContentRange::Range(a, b, t)) => {
@@ -430,6 +454,21 @@ impl Prop for C02 {
                 values.push(Some(format!("bytes={}-{}", a, bb)));
             }
         }
+        // multi-range requests (ascending, descending, suffix first, overlapping): the bytes of each
+        // part must be the ones its own Content-Range names
+        if len >= 400 {
+            let q = len / 4;
+            for v in [
+                format!("bytes=0-9,{}-{}", q, q + 9),
+                format!("bytes={}-{},0-9", q, q + 9),
+                format!("bytes=-7,0-3"),
+                format!("bytes={}-{},{}-{},{}-{}", 3 * q, 3 * q + 2, q, q + 4, 2 * q, 2 * q),
+                format!("bytes={}-,5-5", len - 3),
+                format!("bytes=10-20,15-25,12-13"),
+            ] {
+                values.push(Some(v));
+            }
+        }
         // near the end of giant entities: complete equality on short ranges
         if len > 1 << 20 {
             values.push(Some("bytes=-5".into()));
@@ -452,7 +491,7 @@ impl Prop for C02 {
         replay_serve(&c02_judge, case, sink);
     }
     fn floors(&self, _: &Ctx) -> Vec<(&'static str, u64)> {
-        vec![("single_206_verified", 1000), ("full_200_verified", 100)]
+        vec![("single_206_verified", 1000), ("full_200_verified", 100), ("multipart_parts_verified", 100)]
     }
     fn assumptions(&self) -> Vec<String> {
         vec!["which range a header should select is C03's oracle; here the bytes are compared with what the response's own status and Content-Range denote".into(),
@@ -1509,8 +1548,8 @@ pub fn c07_judge(c: &ServeCase, o: &ServeObs, sink: &mut Sink) -> (Verdict, Opti
             }
             sink.count("short_or_failing_reported_as_error");
         }
-        FaultKind::ExtraByte | FaultKind::ExtraChunk => {
-            if f.at > stream_len {
+        FaultKind::ExtraByte | FaultKind::ExtraChunk | FaultKind::Overrun => {
+            if f.kind != FaultKind::Overrun && f.at > stream_len {
                 return (Verdict::DontCare("fault offset beyond the stream".into()), None);
             }
             if d.total > announced {
@@ -1562,13 +1601,38 @@ pub fn c07_cases_for_tuple(t: &[u32], slow: bool) -> Vec<ServeCase> {
         faults.push((FaultKind::ExtraByte, at));
     }
     faults.push((FaultKind::ExtraChunk, sum));
+    for extra in [1u64, 2, 3, 5] {
+        faults.push((FaultKind::Overrun, extra));
+    }
+    // over-long streams whose chunk boundaries do not coincide with the end of the range: the
+    // range is k bytes shorter than the chunking, so one chunk straddles the end and more follow
+    let mut straddle: Vec<(u64, u64)> = Vec::new(); // (range length, overrun)
+    for k in [1u64, 2] {
+        if sum > k {
+            for extra in [k, k + 1, k + 3] {
+                straddle.push((sum - k, extra));
+            }
+        }
+    }
     // shapes: (range header, entity length, number of get_range calls)
     let mut shapes: Vec<(Option<String>, u64, usize)> = vec![(None, sum, 1), (Some(format!("bytes=3-{}", 3 + sum - 1)), sum + 7, 1)];
     for n in [2usize, 3] {
         let v: Vec<String> = (0..n as u64).map(|i| format!("{}-{}", 100 * i + 5, 100 * i + 5 + sum - 1)).collect();
         shapes.push((Some(format!("bytes={}", v.join(","))), 2000, n));
     }
-    for (range, len, calls) in shapes {
+    // the same shapes for the straddling over-runs
+    let mut all: Vec<(Option<String>, u64, usize, Vec<(FaultKind, u64)>)> = shapes.iter().map(|(r, l, c)| (r.clone(), *l, *c, faults.clone())).collect();
+    for (rl, extra) in straddle {
+        if slow {
+            break;
+        }
+        let f = vec![(FaultKind::Overrun, extra)];
+        all.push((None, rl, 1, f.clone()));
+        all.push((Some(format!("bytes=3-{}", 3 + rl - 1)), rl + 7, 1, f.clone()));
+        let v: Vec<String> = (0..2u64).map(|i| format!("{}-{}", 100 * i + 5, 100 * i + 5 + rl - 1)).collect();
+        all.push((Some(format!("bytes={}", v.join(","))), 2000, 2, f));
+    }
+    for (range, len, calls, faults) in all {
         for call in 0..calls {
             for (kind, at) in &faults {
                 for pend in [false, true] {
